@@ -2,7 +2,7 @@
 
 import itertools
 
-from ..common import Result, Violation, pmap, digest, import_gscrib
+from ..common import Result, Violation, pmap, digest, debug_logging, import_gscrib
 from .. import engine_sched as ES
 from ..printrun_harness import Execution, PC, PW, install_line_points
 
@@ -73,6 +73,13 @@ class DirectFirmware:
 
 
 def run_execution(cfg, prefix, record=False):
+    if cfg.get("debug_log"):
+        with debug_logging():              # the application runs the sender with DEBUG logging switched on
+            return _run_execution(cfg, prefix, record)
+    return _run_execution(cfg, prefix, record)
+
+
+def _run_execution(cfg, prefix, record=False):
     stmts = cfg["statements"]
     fw = DirectFirmware(cfg["behaviours"], greeting=cfg["greeting"])
     script = {"flow_control": cfg.get("mode", "serial") == "socket"}
@@ -382,6 +389,11 @@ def plan(tier):
     for behs in (("probe+ok", "ok"), ("report+ok", "probe+ok"), ("grbl-status+ok", "probe+ok"), ("error", "grbl-status+ok")):
         for c in cfgs(two, behs, ("Q", "L"), (None,), (False, True), True):
             items.append((c, 0 if tier == "quick" else 1, None))
+    for behs in (("ok", "report+ok"), ("error", "ok"), ("probe+ok", "alarm")):
+        for c in cfgs(two, behs, ("Q", "L"), (None,), (False, True), True):
+            items.append(({**c, "debug_log": True}, 0, None))
+        for c in cfgs(two, behs, ("Q",), (None,), (False,), False):
+            items.append(({**c, "debug_log": True}, 1, None))
     if tier == "quick":
         # every behaviour at every position of a 2-statement history, default schedules of both policies
         for behs in itertools.product(BEHAVIOURS, repeat=2):
